@@ -264,6 +264,59 @@ pub fn run(modelrun: &str) {
                         Err(_) => ("panic".into(), Some(cmd)),
                     }
                 }
+                "RESYNC" => ("resync".to_string(), Some("RESYNC".to_string())),
+                "EXT" => {
+                    // a level built from EXTERNAL data whose aggregate fields may lie
+                    let (via, cv, ch, cc) = (t[1], t[2], t[3], t[4]);
+                    let orders: Vec<crate::enc::Order> = {
+                        let b = &t[5][1..t[5].len() - 1];
+                        if b.is_empty() { vec![] } else { b.split(',').map(|x| order_of_str(x).unwrap()).collect() }
+                    };
+                    let price = lvl.price();
+                    let r = guarded(&wh, 5000, || -> Result<PriceLevel, String> {
+                        let snap = || pricelevel::PriceLevelSnapshot {
+                            price,
+                            visible_quantity: cv.parse().unwrap(),
+                            hidden_quantity: ch.parse().unwrap(),
+                            order_count: cc.parse().unwrap(),
+                            orders: orders.iter().map(|o| std::sync::Arc::new(*o)).collect(),
+                        };
+                        match via {
+                            "snap" => PriceLevel::from_snapshot(snap()).map_err(|e| e.to_string()),
+                            "ref" => Ok(PriceLevel::from(&snap())),
+                            "data" => {
+                                let d = pricelevel::PriceLevelData {
+                                    price,
+                                    visible_quantity: cv.parse().unwrap(),
+                                    hidden_quantity: ch.parse().unwrap(),
+                                    order_count: cc.parse().unwrap(),
+                                    orders: orders.clone(),
+                                };
+                                let j = serde_json::to_string(&d).map_err(|e| e.to_string())?;
+                                serde_json::from_str::<PriceLevel>(&j).map_err(|e| e.to_string())
+                            }
+                            "text" => {
+                                let os: Vec<String> = orders.iter().map(|o| o.to_string()).collect();
+                                let text = format!(
+                                    "PriceLevel:price={price};visible_quantity={cv};hidden_quantity={ch};order_count={cc};orders=[{}]",
+                                    os.join(",")
+                                );
+                                PriceLevel::from_str(&text).map_err(|e| e.to_string())
+                            }
+                            _ => Err(format!("bad via {via}")),
+                        }
+                    });
+                    let cmd = format!("EXT {} {cv} {ch} {cc} {}", via_family(via), t[5]);
+                    match r {
+                        Ok(Ok(n)) => {
+                            let s = format!("built=ok {}", state_str(&n));
+                            lvl = n;
+                            (s, Some(cmd))
+                        }
+                        Ok(Err(e)) => (format!("built=err:{}", e.replace(' ', "_")), Some(cmd)),
+                        Err(_) => ("panic".into(), Some(cmd)),
+                    }
+                }
                 _ => (format!("error bad op {op}"), None),
             };
             if impl_res == "panic" {
